@@ -1038,6 +1038,18 @@ def history_symlink(ctx, k):
     before, after = res['before'], res['after']
     ctx.dist('history', 'output-path-is-dangling-symlink:' + which)
     declared = {cfg[x] for x in ('extended_result_path', 'csv_result_path', 'hdf5_result_path', 'log_path') if cfg.get(x)}
+    # the requested location IS the link: what is written through it lands at its target, which is therefore a
+    # requested output location too -- provided it holds the output (not the probe's 'junk') and the link is still
+    # a link afterwards
+    try:
+        target_is_junk = pathlib.Path(target).read_bytes() == b'junk'
+    except OSError:
+        target_is_junk = False
+    link_kept = os.path.islink(link)
+    if not target_is_junk and link_kept:
+        declared.add(target)
+    ctx.dist('dangling-symlink-output', 'written through the link' if (not target_is_junk and link_kept) else
+             ('junk left at the target' if target_is_junk else 'link replaced'))
     stray = sorted(p for p in after if p not in before and p not in declared and not p.startswith(str(sb / 'out') + '/')
                    and not under_any(p, [str(sb / 'systmp'), str(sb / 'cwd')]))
     stray += sorted(p for p in after if p.startswith(str(sb / 'out') + '/') and p not in before and p not in declared)
